@@ -20,7 +20,6 @@ import (
 	"io"
 	"path"
 	"strings"
-	"sync"
 	"sync/atomic"
 
 	"github.com/hugelgupf/p9/linux"
@@ -95,18 +94,7 @@ func (t *tversion) handle(cs *connState) message {
 	//
 	// They are published together: requests already being served (and
 	// replies still being cleaned up) keep the set they started with.
-	cs.readBufs.Store(&readBuffers{
-		pool: sync.Pool{
-			New: func() interface{} {
-				// These buffers are used for decoding without a payload.
-				// We need to return a pointer to avoid unnecessary allocations
-				// (see https://staticcheck.io/docs/checks#SA6002).
-				b := make([]byte, msize)
-				return &b
-			},
-		},
-		pristineZeros: make([]byte, msize),
-	})
+	cs.readBufs.Store(newReadBuffers(msize))
 
 	return &rversion{
 		MSize:   msize,
@@ -771,6 +759,12 @@ func (t *tread) handle(cs *connState) message {
 
 	var n int
 	bufs := cs.readBufs.Load()
+	if bufs == nil {
+		// No Tversion yet: the default message size applies, as it does
+		// for receiving.
+		cs.readBufs.CompareAndSwap(nil, newReadBuffers(maximumLength))
+		bufs = cs.readBufs.Load()
+	}
 	data := bufs.pool.Get().(*[]byte)
 	// Retain a reference to the full length of the buffer.
 	dataBuf := (*data)
